@@ -352,7 +352,9 @@ def importedOf (files : FileTable) : Option (List Name) → Except GErr (Option 
 def combinedDeps (imported localDeps : Option (List String)) : Option (List String) :=
   if (imported.getD [] ++ localDeps.getD []).isEmpty then none else some (imported.getD [] ++ localDeps.getD [])
 
-def depsHashOf (combined : Option (List String)) : Option String := combined.map (hashPaths "deps")
+/-- the hash of the build-dep files, taken over the list in the order the build statements print it (sorted):
+    the same order-only dependencies give the same hash whatever order the exporting modules were resolved in -/
+def depsHashOf (combined : Option (List String)) : Option String := combined.map (fun l => hashPaths "deps" (pathSort l))
 
 /-- a module's own build-dep files are registered under its name -/
 def registerLocalDeps (m : Module) (ls : LoopState) : LoopState :=
